@@ -642,3 +642,73 @@ def check_half_selection(facts, rep):
         rep.ok('E7b.K10-half-by-mirror-test', inst, sorted({v for k, v in verdicts if k == 'ok'})[0])
     else:
         rep.indet('E7b.K10: selection of the half outside the recognised fragment: %s' % sorted({v for _, v in verdicts})[:2])
+
+
+def check_ssi_selection(facts, rep):
+    """K11 (C19, "the pair of involutive s-invariants"): khi::ssi::div returns (d0, d1) = the divisibilities of a
+    canonical cycle of homological degree 0 and of one of degree 1. The 2r cycles (r = 1 reduced, 2 unreduced) are listed
+    degree 0 first (asserted in the function), so on every returning path d0 = ds[i] with i < r and d1 = ds[j] with
+    r <= j < 2r; the indices are evaluated per path (r from the branch on `reduced`, len(ds) = 2r). An index that is
+    right for r = 2 only (e.g. len - 2) silently returns (d0, d0) for the reduced theory."""
+    from symex import SymEx, show, strip
+    b = facts.bodies.get('yui_kh::khi::ssi::div')
+    if b is None:
+        rep.indet('E7b.K11: khi::ssi::div not found')
+        return
+    rep.saw(b)
+    inst = 'khi::ssi::div|d0 from a degree-0 cycle, d1 from a degree-1 cycle, reduced and unreduced'
+    seen = {}
+    bad = []
+    try:
+        paths = SymEx(b, max_paths=20000).run()
+    except Exception as ex:
+        rep.indet('E7b.K11: %s' % str(ex)[:80])
+        return
+    for p in paths:
+        if p.end != 'return' or p.ret is None:
+            continue
+        red = None
+        for e in p.branches():
+            if e.term == ('arg', 3):
+                red = (e.value != 0)
+        if red is None or p.ret[0] != 'tuple' or len(p.ret[1]) != 2:
+            rep.indet('E7b.K11: a returning path of khi::ssi::div does not branch on `reduced` or does not return a pair: %s' % show(p.ret, -1000)[:80])
+            return
+        r = 1 if red else 2
+
+        def ival(t, base):
+            t = strip(t)
+            if t[0] == 'const' and isinstance(t[1], int) and not isinstance(t[1], bool):
+                return t[1]
+            if t[0] == 'field' and t[2] == '0' and t[1][0] == 'bin' and t[1][1] in ('SubWithOverflow', 'AddWithOverflow', 'MulWithOverflow'):
+                x, y = ival(t[1][2], base), ival(t[1][3], base)
+                return x - y if t[1][1][0] == 'S' else (x + y if t[1][1][0] == 'A' else x * y)
+            if t[0] == 'bin' and t[1] in ('Sub', 'Add', 'Mul', 'Div'):
+                x, y = ival(t[2], base), ival(t[3], base)
+                return {'Sub': x - y, 'Add': x + y, 'Mul': x * y}.get(t[1]) if t[1] != 'Div' else x // y
+            if t[0] == 'call' and t[1].split('::')[-1] == 'len' and len(t[2]) == 1 and strip(t[2][0]) == base:
+                return 2 * r
+            raise ValueError(show(t, -1000)[:60])
+        idx = []
+        try:
+            for comp in p.ret[1]:
+                c = strip(comp)
+                if not (c[0] == 'call' and c[1].split('::')[-1] == 'index' and len(c[2]) == 2):
+                    raise ValueError('component ' + show(c, -1000)[:60])
+                base = strip(c[2][0])
+                if 'canon_cycles' not in show(base, -1000):
+                    raise ValueError('indexed value ' + show(base, -1000)[:60])
+                idx.append(ival(c[2][1], base))
+        except (ValueError, TypeError) as ex:
+            rep.indet('E7b.K11: khi::ssi::div picks its pair outside the recognised fragment: %s' % ex)
+            return
+        seen[red] = tuple(idx)
+        if not (0 <= idx[0] < r <= idx[1] < 2 * r):
+            bad.append('%s: (d0, d1) = (ds[%d], ds[%d]) of %d cycles' % ('reduced' if red else 'unreduced', idx[0], idx[1], 2 * r))
+    if set(seen) != {True, False}:
+        rep.indet('E7b.K11: khi::ssi::div returns on %s only' % sorted(seen))
+        return
+    if bad:
+        rep.violation('E7b.K11-ssi-degrees', inst, 'khi::ssi::div: %s - the cycles are listed degree 0 first (r of them), so both divisibilities are read from the same homological degree and the second invariant is lost' % '; '.join(sorted(set(bad))), where=b.where())
+    else:
+        rep.ok('E7b.K11-ssi-degrees', inst, 'reduced %s, unreduced %s' % (seen[True], seen[False]))
